@@ -99,7 +99,18 @@ def run(prop, tier):
                 for tag, exe, env in runs[1:]:
                     other = os.path.join(outs[tag][0 if kind == "history" else 1], pat % i)
                     if not os.path.exists(other):
-                        viols.append(dict(prop="C14", key="cross_process/file_missing/" + kind, detail="%s case %d saved under %s but not under %s" % (kind, i, ref_tag, tag), case=i))
+                        # why is it missing?  A watchdog (wall clock) is inconclusive, never a verdict; a refused save or a crash is a difference between processes
+                        st = "?"
+                        odir = outs[tag][0 if kind == "history" else 1]
+                        for idxf in [x for x in os.listdir(odir) if x.startswith("index_")]:
+                            for ln in open(os.path.join(odir, idxf)):
+                                pp = ln.split("\t")
+                                if pp[0] == str(i):
+                                    st = pp[1]
+                        if st == "watchdog":
+                            stats["watchdog_cases"] += 1
+                        else:
+                            viols.append(dict(prop="C14", key="cross_process/file_missing/" + kind, detail="%s case %d saved under %s but not under %s (child status there: %s)" % (kind, i, ref_tag, tag, st), case=i))
                         continue
                     stats["file_pairs_compared"] += 1
                     if not filecmp.cmp(base, other, shallow=False):
@@ -189,6 +200,8 @@ def run(prop, tier):
                    saves_with_snapshot_equality_checked=cnt.get("c14_purity_checked", 0), double_saves_compared=cnt.get("c14_double_saves", 0),
                    processes_per_object=len(runs), **dict(stats))
         inconc = None
+        if stats.get("watchdog_cases", 0) > 3:
+            inconc = "%d cases hit the wall-clock watchdog" % stats["watchdog_cases"]
         if cnt.get("c14_purity_checked", 0) < 100 or stats["file_pairs_compared"] < 0.8 * 3 * (nh + len(paths)):
             inconc = "too few saves observed (%d purity checks, %d file pairs)" % (cnt.get("c14_purity_checked", 0), stats["file_pairs_compared"])
 
